@@ -62,6 +62,14 @@ Proof.
   pose proof (flat_firstn_mono f l (S ei) si G) as M. rewrite (flat_firstn_S f _ ei be Hbe), app_length in M. lia.
 Qed.
 
+Lemma end_not_before_start (si sj i j : nat) : (si < i \/ (si = i /\ sj <= j))%nat ->
+  pair_lt (Z.of_nat i, Z.of_nat j) (Z.of_nat si, Z.of_nat sj) = false.
+Proof.
+  intro H. unfold pair_lt. cbn [fst snd]. apply Bool.orb_false_iff. split.
+  - apply Z.ltb_ge. lia.
+  - destruct (Z.eqb_spec (Z.of_nat i) (Z.of_nat si)) as [E|E]; [|reflexivity]. cbn [andb]. apply Z.ltb_ge. lia.
+Qed.
+
 Theorem splice_spec LF s tokens ref del_end p q s' r :
   1 <= LF -> Inv s -> ref_pos (abs s) ref p -> end_pos (abs s) del_end p q ->
   valid_tokens s tokens p q ->
@@ -93,15 +101,22 @@ Proof.
             match del_end with
             | None => Ok (Z.of_nat si, Z.of_nat sj)
             | Some d => match check_handle s d with
-                        | Ok (hb, hi) => Ok (b_index (bget (s_heap s) hb), hi + 1)
+                        | Ok (hb, hi) =>
+                          if pair_lt (b_index (bget (s_heap s) hb), hi) (Z.of_nat si, Z.of_nat sj) then Err ValueError
+                          else Ok (b_index (bget (s_heap s) hb), hi + 1)
                         | Err e => Err e end
             end = Ok (Z.of_nat ei, Z.of_nat ej)) as (ei & be & ej & Hbe & Lej & Eq & Hord & Een).
   { destruct del_end as [d|]; cbn in Hq.
     - destruct Hq as [Lpq Hd]. destruct (locate_inv s (q - 1) d I Hd) as (i & b & j & Hb & Ht & Ek & Hh & Hi).
       pose proof (nth_error_in_len _ _ _ Ht) as Lj.
-      exists i, b, (S j). split; [exact Hb|]. split; [lia|]. split; [lia|]. split.
-      + apply (order_of_lt (toks s) (s_blocks s) si bs sj i b (S j)); auto. lia.
-      + rewrite check_handle_hnd, Hh. fold (bidx s b). rewrite Hi. do 2 f_equal. lia.
+      assert (si < i \/ (si = i /\ sj <= S j))%nat as Hord.
+      { apply (order_of_lt (toks s) (s_blocks s) si bs sj i b (S j)); auto. lia. }
+      exists i, b, (S j). split; [exact Hb|]. split; [lia|]. split; [lia|]. split; [exact Hord|].
+      rewrite check_handle_hnd, Hh. fold (bidx s b). rewrite Hi.
+      (* del_end does not come before ref: the early refusal of splice() does not fire *)
+      assert (pair_lt (Z.of_nat i, Z.of_nat j) (Z.of_nat si, Z.of_nat sj) = false) as ->.
+      { apply end_not_before_start. destruct Hord as [G|[G1 G2]]; [left; exact G|right; split; [exact G1|]]. subst i. lia. }
+      do 2 f_equal. lia.
     - exists si, bs, sj. split; [exact Hbs|]. split; [exact Lsj|]. split; [lia|]. split; [right; lia|reflexivity]. }
   rewrite Een in H.
   unfold list_splice. rewrite Ep, Eq. apply (splice__spec LF s tokens si sj ei ej bs be s' r HLF II Hbs Hbe Lsj Lej Hord NDt); [|exact H].
